@@ -23,7 +23,7 @@ def one(d):
         return d, ("SILENT" if not fired else "ALARM"), sorted(set(fired))
     finally:
         shutil.rmtree(t, ignore_errors=True)
-dirs = sys.argv[1:]
+dirs = sys.argv[1:] or sorted(os.path.join("/verif/benign", d) for d in os.listdir("/verif/benign"))
 with ThreadPoolExecutor(6) as ex:
     for d, st, fired in ex.map(one, dirs):
         print(f"{d:28s} {st}")
